@@ -13,7 +13,13 @@
 //! loses entries only by `rem` and by evictions the listener allowed (answer `false`); `get`
 //! returns the reference value; pinned resident keys stay resident; resident count stays within
 //! capacity + currently pinned + 32 (Notify, protocol followed) resp. capacity + entries that may
-//! sit in the pinned region + 32; no call panics.
+//! sit in the pinned region + 32; no call panics.  Notify, protocol followed, additionally the bound of
+//! `bounded_notify_buffered` (Props/C16.lean): resident <= capacity + currently pinned + messages buffered since the
+//! last maintenance pass — in particular right after a pass with nothing pinned: resident <= capacity ("every resident
+//! unpinned entry is tracked by the policy, i.e. evictable"; a surplus there can never be evicted).
+//! Part 1b: the write-behind family (`write_behind`): more keys than capacity, every key written pinned, flushed
+//! (unpin notification queued), re-written/re-pinned before the next maintenance pass, flushed again; then everything
+//! is released and maintenance is run to quiescence.
 #![allow(clippy::all)]
 use qbice_storage::tiny_lfu::{Entry, LifecycleListener, MaintenanceMode, TinyLFU, UnpinStrategy};
 use qbice_verif_harness::{args, jstr, Out, Rng};
@@ -141,6 +147,10 @@ type Cache = TinyLFU<u64, u64, Lsn>;
 /// finding F15 (Poll: no fixed slack over the currently pinned count): the adversary, and any other Poll history that shows it
 const SIG_F15: &str = "bound-poll:excess-grows-with-blockers";
 const SIG_F15_RANDOM: &str = "bound-poll:history-exceeds-capacity+pinned+32";
+/// Notify, protocol followed (`bounded_notify_buffered`): resident > capacity + currently pinned + buffered messages …
+const SIG_BUFFERED: &str = "bound-notify-buffered:resident-exceeds-capacity+pinned+buffered-messages";
+/// … and the same at a quiescent point (nothing pinned, maintenance just ran): the surplus is resident for good
+const SIG_RESIDUE: &str = "unevictable-residue:resident-unpinned-entries-tracked-by-no-region";
 
 // ------------------------------------------------------------------ one single-thread case
 #[derive(Default, Clone)]
@@ -256,6 +266,17 @@ impl Sim {
         if self.hdr.poll { st.max_excess_poll = st.max_excess_poll.max(excess); } else if !self.hdr.tokv && !self.quiet_unpin_seen { st.max_excess_notify = st.max_excess_notify.max(excess); }
         if !self.hdr.poll && !self.hdr.tokv && !self.quiet_unpin_seen && excess > 32 {
             flag("bound-notify", format!("resident {resident} > capacity {} + pinned {pinned_now} + 32", self.max_cap)); }
+        // Notify, protocol followed: the bound with the number of buffered messages in place of the batch size
+        // (theorem bounded_notify_buffered; `msgs` = write messages pushed since the last maintenance pass).  Recorded,
+        // the history goes on (so that the property's own bound, slack 32, can be seen failing too).
+        let msgs = self.msgs as i64;
+        if !self.hdr.poll && !self.hdr.tokv && !self.quiet_unpin_seen && excess > msgs && excess <= 32 && self.soft.is_none() {
+            self.soft = Some(if pinned_now == 0 && msgs == 0 {
+                (SIG_RESIDUE.to_string(), format!("after `{}`: nothing is pinned and maintenance has just run (no message buffered), yet {resident} entries are resident, capacity {}: {} resident unpinned entr{} tracked by no policy region and will never be evicted", op.text(), self.max_cap, excess, if excess == 1 { "y is" } else { "ies are" }), self.step_no)
+            } else {
+                (SIG_BUFFERED.to_string(), format!("after `{}`: resident {resident} > capacity {} + currently pinned {pinned_now} + buffered messages {msgs}", op.text(), self.max_cap), self.step_no)
+            });
+        }
         if self.hdr.poll && excess > 32 && self.soft.is_none() {
             self.soft = Some((SIG_F15_RANDOM.to_string(), format!("Poll: resident {resident} > capacity {} + currently pinned {pinned_now} + 32", self.max_cap), self.step_no)); }
         let region = self.maybe_region.iter().filter(|k| self.refmap.contains_key(k)).count() as i64;
@@ -264,7 +285,8 @@ impl Sim {
     }
 }
 
-struct CaseOut { lines: Vec<(String, String)>, fail: Option<Fail>, nontrivial: bool, panicked: bool }
+/// `fail`: the first hard failure, else the recorded soft one; `soft_also`: the recorded soft one when a hard failure followed it
+struct CaseOut { lines: Vec<(String, String)>, fail: Option<Fail>, soft_also: Option<Fail>, nontrivial: bool, panicked: bool }
 
 /// Runs header + ops (a generator may extend `ops` on the fly through `next`).
 fn run_case(hdr: &Header, universe_hi: u64, mut next: impl FnMut(&Sim, usize) -> Option<O>, st: &mut Stats) -> (CaseOut, Vec<O>) {
@@ -296,11 +318,12 @@ fn run_case(hdr: &Header, universe_hi: u64, mut next: impl FnMut(&Sim, usize) ->
         }
         i += 1;
     }
-    if fail.is_none() { if let Some((sig, desc, at)) = sim.soft.take() { fail = Some(Fail { sig, desc, at }); } }
+    let mut soft_also = None;
+    if let Some((sig, desc, at)) = sim.soft.take() { if fail.is_none() { fail = Some(Fail { sig, desc, at }); } else { soft_also = Some(Fail { sig, desc, at }); } }
     let nontrivial = sim.evicted_any && sim.kept_any;
     // leak the cache after a panic (its internal lists may be inconsistent; Drop walks them)
     if panicked { std::mem::forget(sim); }
-    (CaseOut { lines, fail, nontrivial, panicked }, done)
+    (CaseOut { lines, fail, soft_also, nontrivial, panicked }, done)
 }
 
 // ------------------------------------------------------------------ generator
@@ -416,6 +439,44 @@ fn poll_adversary(b: u64, rounds: u64) -> (Header, Vec<O>) {
         ops.push(O::Len);
     }
     (Header { cap: 1, poll: true, tokv: false }, ops)
+}
+
+/// Write-behind family (how `wide_column_cache.rs` / the key-of-set staging drive a `Notify` cache): far more keys
+/// than capacity; an epoch writes a few keys pinned (`pin k; put k v`), unrelated clean traffic (> 32 inserts = at
+/// least one maintenance pass) pushes them out of the window while pinned (they lose the admission duel and are
+/// parked in the policy's Pinned region); the epoch is flushed (`unpinn k`: released, notification queued) and the
+/// next epoch re-writes (re-pins) most of the keys BEFORE the next maintenance pass (< 33 buffered messages), so the
+/// pass processes `Unpinned(k)` for an entry that is pinned again; it is flushed again, more traffic.  At the end
+/// nothing is pinned and no-op notifications run maintenance to quiescence (two passes), then `len`.
+/// `poll`: the same shape with silent releases (the Poll protocol), sometimes notified.
+fn write_behind(r: &mut Rng, poll: bool, long: bool) -> (Header, Vec<O>) {
+    let cap = (match r.below(10) { 0..=5 => r.range(1, 4), 6..=8 => r.range(5, 12), _ => r.range(13, 40) }) as usize;
+    let (w, _, m) = caps_float(cap); let maxc = (w + m) as u64;
+    let mut ops: Vec<O> = vec![]; let mut filler = 1000u64; let mut val = 0u64;
+    fn churn(ops: &mut Vec<O>, filler: &mut u64, n: u64) { for _ in 0..n { ops.push(O::Put(*filler, 0)); *filler += 1; } }
+    let pass = |r: &mut Rng| if r.chance(1, 7) { r.below(33) } else { 33 + r.below(10) };
+    churn(&mut ops, &mut filler, 2 * maxc + r.below(40));
+    let n_keys = if long { r.range(90, 200) } else { r.range(44, 80) };
+    let (mut written, mut next_key) = (0u64, 0u64);
+    while written < n_keys {
+        let e = r.range(1, 6);
+        let mut keys: Vec<u64> = vec![];
+        for _ in 0..e { let k = if next_key > 0 && r.chance(1, 6) { r.below(next_key) } else { next_key += 1; next_key - 1 }; if !keys.contains(&k) { keys.push(k); } }
+        written += keys.len() as u64;
+        let release = |ops: &mut Vec<O>, r: &mut Rng, k: u64| ops.push(if poll && !r.chance(1, 4) { O::Unpin(k) } else { O::UnpinN(k) });
+        for k in &keys { ops.push(O::Pin(*k)); val += 1; ops.push(O::Put(*k, val)); if r.chance(1, 10) { ops.push(O::Get(*k)); } }
+        let n = pass(r); churn(&mut ops, &mut filler, n);
+        for k in &keys { release(&mut ops, r, *k); }
+        if r.chance(1, 4) { let n = r.below(5); churn(&mut ops, &mut filler, n); }
+        let again: Vec<u64> = keys.iter().copied().filter(|_| r.chance(3, 4)).collect();
+        for k in &again { ops.push(O::Pin(*k)); val += 1; ops.push(O::Put(*k, val)); }
+        let n = pass(r); churn(&mut ops, &mut filler, n);
+        for k in &again { release(&mut ops, r, *k); }
+        let n = pass(r); churn(&mut ops, &mut filler, n);
+    }
+    for _ in 0..68 { ops.push(O::Notify(filler)); }
+    ops.push(O::Len);
+    (Header { cap, poll, tokv: false }, ops)
 }
 
 // ------------------------------------------------------------------ part 2: multi-threaded, oracle only
@@ -650,6 +711,25 @@ fn main() {
             poll_probe.push((b, st2.max_excess_poll));
             if let Some(fl) = &co.fail { if fl.sig != SIG_F15_RANDOM { fails.push((fl.sig.clone(), format!("[poll adversary b={b}] {}", fl.desc), case_text(&h, &ops[..=fl.at]))); } }
         }
+        // the write-behind family (LFU_WB = cases per shard, LFU_WB_LONG = longer histories: used by the plugin's boosted search)
+        let envn = |k: &str| std::env::var(k).ok().and_then(|x| x.parse::<u64>().ok());
+        let n_wb = envn("LFU_WB").unwrap_or(if quick { 10 } else { 60 }); let wb_long = envn("LFU_WB_LONG").unwrap_or(0) > 0;
+        { let mut wr = Rng::new(a.seed ^ 0x57B1_7EB4); let mut shrunk_wb = 0;
+          for i in 0..n_wb {
+            let poll = i % 4 == 3;
+            let (h, ops) = write_behind(&mut wr, poll, wb_long);
+            let co = replay_ops(&h, &ops, &mut st); emit(&co, &mut out); evals += 1;
+            *strat.entry(if poll { "write-behind family (Poll)" } else { "write-behind family (Notify)" }).or_insert(0) += 1;
+            if co.nontrivial { distinct.insert(hasher.hash_one(&case_text(&h, &ops))); }
+            for fl in [co.soft_also, co.fail].into_iter().flatten() {
+                if fl.sig == SIG_F15_RANDOM { continue; }   // known finding F15 (silent releases): documented by the adversary and the random Poll histories
+                if fails.iter().filter(|f| f.0 == fl.sig).count() < 2 && shrunk_wb < 4 {
+                    shrunk_wb += 1;
+                    let small = shrink(&h, ops[..=fl.at.min(ops.len() - 1)].to_vec(), &fl.sig);
+                    fails.push((fl.sig.clone(), format!("[write-behind family] {}", fl.desc), case_text(&h, &small)));
+                } else { fails.push((fl.sig.clone(), format!("[write-behind family] {}", fl.desc), String::new())); }
+            }
+          } }
         let n_cases = a.n.unwrap_or(if quick { 260 } else { 1500 });
         let mut master = Rng::new(a.seed); let mut shrunk = 0; let mut stopped_early = false;
         for _ in 0..n_cases {
@@ -676,12 +756,13 @@ fn main() {
         }
         // part 2
         let mut rep = MtReport { runs: 0, ops: 0, fails: vec![] };
-        let (n_mt, n_lock) = if quick { (3, 3) } else { (16, 16) };
+        let skip_mt = envn("LFU_SKIP_MT").unwrap_or(0) > 0;
+        let (n_mt, n_lock) = if skip_mt { (0, 0) } else if quick { (3, 3) } else { (16, 16) };
         for i in 0..n_mt { mt_cache_run(a.seed.wrapping_mul(1000).wrapping_add(i), &mut rep); }
         let mt_cache_ops = rep.ops;
         for i in 0..n_lock { mt_lock_run(a.seed.wrapping_mul(1000).wrapping_add(i), &mut rep); }
         let before = rep.ops;
-        let (n_st, st_ms) = if quick { (8u64, 350u64) } else { (40, 500) };
+        let (n_st, st_ms) = if skip_mt { (0u64, 0u64) } else if quick { (8u64, 350u64) } else { (40, 500) };
         let st_ms = std::env::var("LFU_STRESS_MS").ok().and_then(|x| x.parse().ok()).unwrap_or(st_ms);
         for i in 0..n_st { mt_lock_threads(a.seed.wrapping_mul(1000).wrapping_add(i), std::time::Duration::from_millis(st_ms), &mut rep);
             if rep.fails.iter().filter(|f| f.0 == "lock-split").count() >= 2 { break; } }
